@@ -194,7 +194,17 @@ def unit_pre(prop, which):
     return unit
 
 
+def unit_alias_arg(prop):
+    def unit(tier, known):
+        from contracts import alias as C
+        return run_contract(prop, ("alias", "alias_factory_subclass_from_arg"), C.contract(), C.SETUPS, name="alias_factory_subclass_from_arg",
+                            to_case=C.to_case, replay_module="rtc.c08")
+    unit.__name__ = "alias_factory_subclass_from_arg"
+    return unit
+
+
 UNITS = {
+    "C08": [unit_alias_arg("C08")],
     "C18": [unit_pre("C18", "preemph"), unit_pre("C18", "dither")],
     "C12": [unit_copy_samples("C12"), _lazy("contracts.sphere", "unit_g711", "C12")],
     "C20": [unit_circshift("C20"), _lazy("contracts.util_misc", "unit_angular", "C20")],
